@@ -296,7 +296,7 @@ class Receiver:
         execution_time = time() - start_time
         if dep_ctx:
             args = (None, None, None)
-            if found_exception and self.propagate_exceptions:
+            if found_exception is not None and self.propagate_exceptions:
                 args = (  # type: ignore
                     type(found_exception),
                     found_exception,
